@@ -3,7 +3,7 @@
 //! Job: {"id", "program", "checked"?, "solver": {"kind":"slg","max_size"} |
 //!       {"kind":"rec","overflow","cache","max_size"}, "trace"?, "defs"?, "budget"?,
 //!       "ops":[{"op":"solve"|"limited"|"multi","goal", "stop_at"?, "stop_mode"?("at"|"from"),
-//!               "max"?, "panic_at"?, "fresh"? }]}
+//!               "max"?, "panic_at"?, "fresh"? }], "limits"? (count size-limit events per op)}
 //! Observation: {"id","error","results":[...],"events":[...]}
 
 use crate::wrapdb::{Injected, WrapDb};
@@ -147,7 +147,8 @@ fn run_job_inner(job: &Value) -> String {
     let choice = choice_of(&job["solver"]);
     let trace = job["trace"].as_bool().unwrap_or(false);
     let defs = job["defs"].as_bool().unwrap_or(false);
-    let budget = job["budget"].as_u64();
+    let limits = job["limits"].as_bool().unwrap_or(false);
+    let budget = job["budget"].as_u64().or(if limits { Some(u64::MAX / 4) } else { None });
     let detail = job["detail"].as_bool().unwrap_or(false);
     let mut solver: Box<dyn Solver<ChalkIr>> = choice.into_solver();
     let wdb = WrapDb::new(&db);
@@ -271,6 +272,17 @@ fn run_job_inner(job: &Value) -> String {
                 });
                 let evs = verif::uninstall();
                 r["nevents"] = json!(evs.len());
+                if limits {
+                    // how often a size limit cut the search short (answer / subgoal too large)
+                    r["limits"] = json!(evs
+                        .iter()
+                        .filter(|e| {
+                            e.contains("\"ev\":\"AnswerTooLarge\"")
+                                || e.contains("\"ev\":\"FlounderLit\"")
+                                || e.contains("\"ev\":\"RecTruncated\"")
+                        })
+                        .count());
+                }
                 if trace {
                     all_events.extend(evs);
                 }
